@@ -9,6 +9,7 @@ import subprocess
 import sys
 
 EMPHASIS = {
+    "MN": """is as hard as possible to detect for an automated test generator that draws random inputs and histories and compares against a reference model. Six earlier rounds already seeded: obvious slips; subtle slips in boundary values, carried-over state and error paths; slips in callers, helpers and other entry points; slips that need two rare conditions at once or show only to a second observer; slips in interactions with other features, re-use after restart and class-level state; slips that need large sizes, deep nesting, long histories or the full width of a field. This round, look at AFTERMATH, RECIPIENTS and ORDER: an effect that is only observable LATER or ELSEWHERE - the operation itself returns the right answer, but leaves something behind (a stale entry, a lock, a register, a counter, a buffer not reset, a resource not released) that makes a LATER, different operation or a different object go wrong; an operation that was refused, failed, timed out or was cancelled and must leave no trace but does; the right value delivered to the WRONG RECIPIENT (another variable, terminal, task, channel, group, process) or at the wrong moment (one cycle early or late); the ORDER of effects rather than their content (two writes swapped, a flag set before the data it guards, an acknowledgement before the action); an identical operation done twice in a row (idempotence), or the first operation after a long idle period or after nothing happened at all (empty input, zero elements, no terminals, no change). Every single call should still return plausible results. Do not make things raise or hang.""",
     "KL": """is as hard as possible to detect for an automated test generator that draws random inputs and histories of moderate size and compares against a reference model. Five earlier rounds already seeded: obvious slips; subtle slips in boundary values, carried-over state and error paths; slips in callers, helpers and other entry points; slips that need two rare conditions at once or show only to a second observer; slips in interactions with other features, re-use after restart and class-level state. This round, look at SIZE, DEPTH and FIELD WIDTHS: a violation that needs a LARGE, DEEP or LONG input - an expression or condition nested four or more levels deep or needing six or more live temporaries (register pressure, spilled registers, stack temporaries), a history of thirty or more operations, ten or more terminals, devices, datagrams or variables, a frame or mailbox message close to its maximum size, values that need all 64 (or all 16 / 32) bits, a counter after several wrap-arounds, the 17th, 65th, 256th or 65536th element of something; and numeric field widths and masks (a field one bit too narrow, a mask that drops the top bit, a length computed in the wrong unit, an index that wraps). Inputs of small or moderate size must behave exactly as before. Every single call should still return plausible results. Do not make things raise or hang.""",
     "IJ": """is as hard as possible to detect for an automated test generator that draws random inputs and histories and compares against a reference model. Four earlier rounds already seeded: obvious slips; subtle slips in boundary values, carried-over state and error paths; slips in callers, helpers and other entry points; slips that need two rare conditions at once or show only to a second observer. This round, look at INTERACTIONS and LIMITS instead: the property's mechanism combined with another feature the statement also quantifies over but that is rarely combined with it (another variable kind or format, another terminal or device type shipped with the library, inheritance or several instances of one class, non-default constructor parameters, re-use of an object after close / cancel / restart, class-level versus instance-level state); tables and constants of the library (struct format letters, enum values, bit masks, register addresses, sizes) that are consulted only for a subset of the inputs; behaviour at a documented maximum (the last slot, the largest size, the highest index, a counter wrapping round); and the second or third object of a kind where the first one behaves correctly. Every single call should still return plausible results. Do not make things raise or hang.""",
 }
